@@ -10,7 +10,8 @@ Inductive elem :=
   | ELine (k : kind) (l : loc) (kw : str) (text : str)
   | ETag (l : loc) (name : str)
   | ERow (l : loc) (cells : list cell)
-  | EText (s : str).          (* a non-blank line of free text: of a description or of a doc string's content *)
+  | EText (s : str)           (* a non-blank line of free text: of a description or of a doc string's content *)
+  | EDoc (l : loc) (delim : str) (media : option str).   (* the opening delimiter line of a doc string *)
 
 (* the non-blank lines of a text *)
 Definition nonblank (s : str) : bool := negb (forallb is_space s).
@@ -21,7 +22,7 @@ Definition tag_elems (ts : list tag) : list elem := map (fun t => ETag (tg_loc t
 Definition row_elems (rs : list row) : list elem := map (fun r => ERow (r_loc r) (r_cells r)) rs.
 Definition step_elems (s : step) : list elem :=
   ELine KStepLine (st_loc s) (st_keyword s) (st_text s)
-  :: match st_arg s with ArgTable _ rows => row_elems rows | ArgDoc d => text_elems (ds_content d) | ArgNone => [] end.
+  :: match st_arg s with ArgTable _ rows => row_elems rows | ArgDoc d => EDoc (ds_loc d) (ds_delim d) (ds_media d) :: text_elems (ds_content d) | ArgNone => [] end.
 Definition bg_elems (b : background) : list elem :=
   ELine KBackgroundLine (bg_loc b) (bg_keyword b) (bg_name b) :: text_elems (bg_desc b) ++ flat_map step_elems (bg_steps b).
 Definition ex_elems (e : examples) : list elem :=
@@ -50,6 +51,11 @@ Definition tok_elems (k : kind) (t : token) : list elem :=
   | KTagLine => map (fun it => ETag (get_location t (Some (fst it))) (snd it)) (m_items t)
   | KTableRow => [ERow (get_location t None) (get_cells t)]
   | KOther => match m_text t with Some text => text_elems text | None => [] end
+  | KDocStringSeparator =>      (* an opening delimiter carries the media type text (possibly empty), a closing one none *)
+    match m_text t, m_keyword t with
+    | Some mt, Some delim => [EDoc (get_location t None) delim (match mt with [] => None | _ => Some mt end)]
+    | _, _ => []
+    end
   | _ => []
   end.
 Definition tok_comment (k : kind) (t : token) : list comment :=
@@ -75,11 +81,14 @@ Definition cpat (r : rule) : list (key * bool) :=
   | RStep => [(KT KStepLine, false); (KR RDataTable, false); (KR RDocString, false)]
   | RDataTable => [(KT KTableRow, true)]
   | RTags => [(KT KTagLine, true)]
-  | RDocString | RDescription => [(KT KOther, true)]
+  | RDocString => [(KT KDocStringSeparator, true); (KT KOther, true)]
+  | RDescription => [(KT KOther, true)]
   end.
 Definition crfree (x : rule) : bool := false.
 Definition ctfree (k : kind) : bool :=
-  match k with KEOF | KEmpty | KComment | KLanguage | KDocStringSeparator => true | _ => false end.
+  match k with KEOF | KEmpty | KComment | KLanguage => true | _ => false end.
 (* a step holds a data table or a doc string, never both *)
 Definition cxr (x : rule) : list (key * key) :=
   match x with RStep => [(KR RDataTable, KR RDocString)] | _ => [] end.
+(* of the delimiter lines of a doc string only the first (the opening one) carries content *)
+Definition cfo (x : rule) : list key := match x with RDocString => [KT KDocStringSeparator] | _ => [] end.
